@@ -271,6 +271,71 @@ impl Exec {
                     None => out.push(("ok".into(), json!(false))),
                 }
             }
+            "clone_from" => {
+                // Clone::clone_from: instance `g` is overwritten with a copy of instance `from`
+                let g = get_u64(op, "g");
+                let from = get_u64(op, "from");
+                let src = self.gens.remove(&from).expect("schedule error: clone_from source");
+                let ok = match self.gens.get_mut(&g) {
+                    Some(dst) => dst.clone_from_dyn(src.as_ref()),
+                    None => false,
+                };
+                let o = catch_unwind(AssertUnwindSafe(|| src.obs())).unwrap_or(Value::Null);
+                if !o.is_null() {
+                    out.push(("obs_from".into(), o));
+                }
+                self.gens.insert(from, src);
+                out.push(("ok".into(), json!(ok)));
+            }
+            "panic_scan" => {
+                // C14: look for a panic over many seeds of one kind, natively (no trace per seed).  Nothing is
+                // decided here: what is found is handed back as (seed, stage) and replayed as an ordinary schedule.
+                let kind = op["kind"].as_str().unwrap().to_string();
+                let n = get_u64(op, "n");
+                let len = get_u64(op, "seed_len") as usize;
+                let outs = op.get("outputs").and_then(|v| v.as_u64()).unwrap_or(8);
+                let mut found: Vec<Value> = Vec::new();
+                for k in 0..n {
+                    if found.len() >= 4 {
+                        break;
+                    }
+                    let mut seed = vec![0u8; len];
+                    let kb = k.to_le_bytes();
+                    let m = len.min(8);
+                    seed[..m].copy_from_slice(&kb[..m]);
+                    for (stage, ctor) in [("from_seed", 0u8), ("seed_from_u64", 1u8), ("from_seed_spread", 2u8)] {
+                        let kind2 = kind.clone();
+                        let seed2: Vec<u8> = if ctor == 2 {
+                            // the counter spread over the whole seed with an LCG: dense seeds
+                            let mut x = k.wrapping_mul(0x9E3779B97F4A7C15) | 1;
+                            (0..len).map(|_| { x = x.wrapping_mul(6364136223846793005).wrapping_add(1442695040888963407); (x >> 56) as u8 }).collect()
+                        } else {
+                            seed.clone()
+                        };
+                        let r = catch_unwind(AssertUnwindSafe(|| {
+                            let b = if ctor == 1 { construct(&kind2, Ctor::SeedFromU64(k.wrapping_mul(0x2545F4914F6CDD1D))) } else { construct(&kind2, Ctor::FromSeed(&seed2)) };
+                            if let Built::Ok(mut g) = b {
+                                for _ in 0..outs {
+                                    let _ = g.next_u32();
+                                    let _ = g.next_u64();
+                                }
+                                let mut buf = [0u8; 37];
+                                let _ = g.fill_bytes(&mut buf);
+                                let _ = g.generate();
+                                let _ = g.jump();
+                                let _ = g.next_u64();
+                            }
+                        }));
+                        if r.is_err() {
+                            let _ = LAST_PANIC_AT.lock().unwrap().take();
+                            found.push(json!({"k": k, "stage": stage, "seed": seed2,
+                                              "x": u64j(k.wrapping_mul(0x2545F4914F6CDD1D))}));
+                        }
+                    }
+                }
+                out.push(("scanned".into(), json!(n)));
+                out.push(("found".into(), Value::Array(found)));
+            }
             "eq" => {
                 let a = get_u64(op, "a");
                 let b = get_u64(op, "b");
